@@ -457,6 +457,50 @@ func runC14(r *Run) {
 		c14RunCase(r, c, []c14Hook{h1, h2, h3}, []c14Req{{"/hooks/my-hook-ex-io", "ok", "u1"}, {"/hooks/a//b", "ok", "u2"}, {"/hooks/a/b", "ok", "u3"}})
 	})
 
+	// ---- the complete outcome table: every response-file content class x exit code x binding kind
+	pt := `[{"op":"replace","path":"/spec/x","value":1}]`
+	pt64 := base64.StdEncoding.EncodeToString([]byte(pt))
+	table := []c14Outcome{
+		{Kind: "e"},
+		{Kind: "g", Content: "this is not json"}, {Kind: "g", Content: " "}, {Kind: "g", Content: "\n"},
+		{Kind: "t", Content: `{"allowed": tr`}, {Kind: "t", Content: `{"allowed": true`},
+		{Kind: "y", Content: `{"allowed": "yes"}`}, {Kind: "y", Content: `{"allowed": 1}`}, {Kind: "y", Content: `{"allowed": true, "warnings": "w"}`},
+		{Kind: "y", Content: `[true]`}, {Kind: "y", Content: `"allowed"`}, {Kind: "y", Content: `{"allowed": true, "message": 5}`},
+		{Kind: "b", Content: `{"allowed": true, "patch": "!!!not-base64!!!"}`}, {Kind: "b", Content: `{"allowed": true, "patch": 5}`},
+		{Kind: "z", Content: "{\"allowed\": true}\ngarbage"}, {Kind: "z", Content: `{"allowed": true}}`}, {Kind: "z", Content: `{"allowed": true} x`},
+		{Kind: "z", Content: `{"allowed": true}]`}, {Kind: "s", Content: "{\"allowed\": true}\n{\"allowed\": false}"}, {Kind: "s", Content: `{"allowed": true}{"allowed": true}`},
+		{Kind: "o", Content: "{}"}, {Kind: "n", Content: "null"}, {Kind: "u", Content: `{"allowed": true, "unknownField": [1, 2]}`},
+		{Kind: "a", Content: `{"allowed": true}`}, {Kind: "a", Content: "  {\"allowed\": true}\n\n"}, {Kind: "a", Content: `{"Allowed": true}`},
+		{Kind: "d", Content: `{"allowed": false}`},
+		{Kind: "a", Msg: "fine by me", Content: `{"allowed": true, "message": "fine by me"}`},
+		{Kind: "d", Msg: "no", Content: `{"allowed": false, "message": "no"}`},
+		{Kind: "a", Warns: []string{"w 1", "w2"}, Content: `{"allowed": true, "warnings": ["w 1", "w2"]}`},
+		{Kind: "d", Msg: "no", Warns: []string{"w"}, Content: `{"allowed": false, "message": "no", "warnings": ["w"]}`},
+		{Kind: "a", Patch: pt, Content: `{"allowed": true, "patch": "` + pt64 + `"}`},
+		{Kind: "d", Msg: "no", Patch: pt, Content: `{"allowed": false, "message": "no", "patch": "` + pt64 + `"}`},
+		{Kind: "a", Content: `{"allowed": true, "patch": ""}`}, {Kind: "a", Content: `{"allowed": true, "warnings": []}`},
+		{Kind: "d", Content: `{"allowed": null}`},
+	}
+	exits := []int{0, 1}
+	kinds := []string{"v", "m"}
+	r.Cases(200, len(table)*len(exits)*len(kinds), 0, func(c *Case, _ *Rng) {
+		k := c.Idx - 200
+		o := table[k%len(table)]
+		o.Exit = exits[(k/len(table))%len(exits)]
+		kind := kinds[k/(len(table)*len(exits))]
+		name := "table.example.com"
+		h := c14Hook{ID: 1, Bindings: []c14Binding{{kind, name}}, Out: map[string]c14Outcome{name: o}}
+		c.Desc = fmt.Sprintf("table: exit %d, %s binding, response file %q", o.Exit, kind, o.Content)
+		c14RunCase(r, c, []c14Hook{h}, []c14Req{
+			{"/hooks/table-example-com", "ok", fmt.Sprintf("t-%d-a", k)},
+			{"/hooks/table-example-com/", "ok", fmt.Sprintf("t-%d-b", k)},
+			{"/hooks/table.example.com", "ok", fmt.Sprintf("t-%d-c", k)},
+			{"/hooks/table-example-com", "garbage", fmt.Sprintf("t-%d-d", k)}})
+		c.Note("case:outcome-table")
+	})
+	r.Exhaust = true
+	r.Extra["exhaustive_scope"] = fmt.Sprintf("the complete table of %d response-file contents (every content class) x exit {0,1} x {validating, mutating} binding, each asked on the registered path, with a trailing slash, on a non-registered spelling and with a garbage body", len(table))
+
 	// ---- differential: SafeURLString / detectConfigurationAndWebhook
 	r.Cases(50, r.N(40, 400), 0, func(c *Case, rng *Rng) {
 		var names, paths []string
